@@ -9,7 +9,7 @@ GEN_TABLES = ["CurveGen"]
 CASE_TIMEOUT = 60.0
 FILLER = {"secp-verify-rand"}
 ASSUMPTIONS = [
-    "curve_facts / curve_facts_x for secp256k1 are EXPLICIT PREMISES (proved by computation for the small curves)",
+    "curve_facts / curve_facts_x are EXPLICIT PREMISES of the generic theorems; curve_facts is PROVED for secp256k1 (coq/GL, Props/Secp256k1.v) and both by computation for the small curves; `G generates every curve point` remains a premise for secp256k1 (malleability theorem only)",
     "sha256 arbitrary in the sig_verify theorem; hashlib answers it at run time",
     "modelled, not verified: ecmath.verify, utils.sig_verify, utils.point, utils.ensure_sig_low_s, utils.der_*; pem ASN.1 codec",
     "OpenSSL (python `cryptography`) is an additional accept/reject oracle on secp256k1 in the correspondence only",
